@@ -174,10 +174,19 @@ def bindParam (ctx : Ctx) (name : Option String) (pos : Nat) : CM Value :=
      | none => .error (.py "IndexError"))
   | _, _ => .error (.py "TypeError")
 
-/-- `issubclass(dtype, collections.abc.Container)` for the datatypes that can be announced -/
-def isContainerTy : Ty → Bool
-  | .int | .dec | .date | .bool | .interval | .asterisk | .any | .obj | .none => false
+def hashableTy : Ty → Bool
+  | .list | .set | .dict | .inventory => false
+  | .other "Metadata" => false
   | _ => true
+
+/-- right operands of IN / NOT IN: collections of values (`set`, `list`, `dict` and their subclasses: an inventory is a
+    dict), untyped operands, and a string when the left operand is a string or untyped (substring test) -/
+def inSupported (left right : Ty) : Bool :=
+  match right with
+  | .list | .obj | .none => true
+  | .set | .dict | .inventory => hashableTy left          -- membership in sets and dictionaries hashes the left operand
+  | .str => left == .str || left == .obj || left == .none
+  | _ => false
 
 /-- result of compiling a nested SELECT -/
 inductive SubResult
@@ -249,7 +258,7 @@ def compileExpr (ctx : Ctx) (tbl : TableDef) (subq : Select → CM SubResult) :
           match compileExpr ctx tbl subq r h1 with
           | .error x => .error x
           | .ok (cr, h2) =>
-            if isContainerTy cr.ty || cr.ty == .obj || cr.ty == .none then .ok (.binop op cl cr .bool, h2)
+            if inSupported cl.ty cr.ty then .ok (.binop op cl cr .bool, h2)
             else .error (.compile "operator in not supported")
       else
         match compileExpr ctx tbl subq r h1 with
@@ -344,10 +353,6 @@ def indexOfExpr (ts : List CTarget) (ce : CExpr) : Option Nat :=
   let i := ts.findIdx (fun t => CExpr.eqv t.expr ce)
   if i < ts.length then some i else none
 
-def hashableTy : Ty → Bool
-  | .list | .set | .dict | .inventory => false
-  | .other "Metadata" => false
-  | _ => true
 
 /-- resolution of one GROUP BY column against the targets so far (`compiler.py:360-408`).
     `nvis` is the number of SELECT-list targets; `ts` also holds hidden ones added so far. -/
